@@ -107,9 +107,9 @@ type Obj struct {
 	Data map[string]string `json:"data,omitempty"`
 
 	// Pod
-	PodIP       string `json:"podIP,omitempty"`
-	Terminating bool   `json:"terminating,omitempty"`
-	UID         string `json:"uid,omitempty"`
+	PodIP       string    `json:"podIP,omitempty"`
+	Terminating bool      `json:"terminating,omitempty"`
+	UID         string    `json:"uid,omitempty"`
 	ContPorts   []SvcPort `json:"contPorts,omitempty"`
 
 	// Gateway API (see gateway.go)
